@@ -397,6 +397,31 @@ def v_if(run, twin=None):
         ex = sk.t.tr.then(sk.b.tr.join(sk.o.tr) if not twin else sk.b.tr)
         check_exit(sk, g, v, path, ex, fs)
     run_skeleton(build, check)
+    if twin:
+        return
+
+    # if t: B elif t2: B2 else: O2  -  the else clause is one nested if: t2 (which may bind) is evaluated only when t was false
+    def build_elif():
+        sk = Skeleton()
+        t, b = sk.child('expr', 'test', effects=True), sk.child('stmts', 'body')
+        t2, b2, o2 = sk.child('expr', 'elif-test', effects=True), sk.child('stmts', 'elif-body'), sk.child('stmts', 'else-body')
+        kw, kw2 = Pos('if'), Pos('elif')
+        sk.order(kw, t.start)
+        sk.facts += [le(t.end.t, b.start.t), le(b.end.t, kw2.t), lt(kw2.t, t2.start.t), le(t2.end.t, b2.start.t), le(b2.end.t, o2.start.t)] + px_facts(kw2)
+        inner = kw2.put(ast.If(test=t2.node(), body=[b2.node()], orelse=[o2.node()]))
+        sk.node = kw.put(ast.If(test=t.node(), body=[b.node()], orelse=[inner]))
+        sk.t, sk.b, sk.t2, sk.b2, sk.o2 = t, b, t2, b2, o2
+        return sk
+
+    def check_elif(sk, g, v, path):
+        fs = all_facts(sk)
+        core.RUN.case = 'elif'
+        tt = sk.t.tr
+        t2 = tt.then(sk.t2.tr)
+        check_entries(sk, g, path, [(sk.t, ID), (sk.b, tt), (sk.t2, tt), (sk.b2, t2), (sk.o2, t2)], fs)
+        check_exit(sk, g, v, path, joins([tt.then(sk.b.tr), t2.then(sk.b2.tr), t2.then(sk.o2.tr)]), fs)
+    run_skeleton(build_elif, check_elif)
+    core.RUN.case = None
 
 
 @harness(['C02', 'C03', 'C01', 'C13'], 'supp.nast.extract_visitor.visit_While')
